@@ -38,7 +38,18 @@ def run(ctx):
         for c in f.calls(NONDET):
             n += 1
             k = (base, f.name, c['callee'])
-            ctx.ob('NONDET', '%s:%s:%s' % k, k in ALLOWED, f.loc(c), '%s () in %s: %s' % (c['callee'], f.name, ALLOWED.get(k, 'NOT a documented source of run-to-run variation: file bytes would depend on when / where the program runs')), None)
+            okn = k in ALLOWED
+            whyn = ALLOWED.get(k)
+            if not okn and c['callee'] == 'time':
+                # the documented PEAK timestamp, wherever the code that writes the PEAK chunk lives: time () is an argument of a psf_binheader_writef call
+                # in a function that also emits the PEAK marker
+                par_ = [a_ for a_ in f.ancestors(c) if a_['k'] == 'CallExpr' and a_.get('callee') == 'psf_binheader_writef']
+                import struct as _st
+                marks_ = {_st.unpack(e_ + 'I', t_)[0] for t_ in (b'PEAK', b'peak') for e_ in ('<', '>')}
+                peak_ = any(x.get('v') in marks_ for w_ in f.calls('psf_binheader_writef') for a_ in f.args(w_) for x in f.walk(a_ if isinstance(a_, dict) else f.N[a_]))
+                if par_ and peak_:
+                    okn, whyn = True, 'PEAK chunk timestamp (documented): argument of the writef call of a function that emits the PEAK marker'
+            ctx.ob('NONDET', '%s:%s:%s' % k, okn, f.loc(c), '%s () in %s: %s' % (c['callee'], f.name, whyn or 'NOT a documented source of run-to-run variation: file bytes would depend on when / where the program runs'), None)
     for callee, table in (('psf_rand_int32', RAND_CALLERS), ('psf_get_date_str', DATE_CALLERS)):
         for g in sorted(prog.callers.get(callee, ())):
             ctx.ob('NONDET', '%s<-%s' % (callee, g), g in table, prog.fns[g][0].loc(prog.fns[g][0].body) if g in prog.fns else 'src/', '%s called from %s: %s' % (callee, g, table.get(g, 'NOT a frozen caller')), None)
